@@ -107,7 +107,7 @@ func (s *sess) explore(j *Job, o exploreOpt) (n int) {
 			m.violate(j, r, "unknown-operation", "instrumentation", fmt.Sprintf("the instrumented code performed operations the model does not know: %v", r.Unk), nil, nil)
 		}
 		nontrivial := f.ctxSwitch >= 3 && f.consSteps > 0
-		s.c.Count(fmt.Sprintf("%d/%v", j.ID, schedOf(r)), nontrivial)
+		s.c.Count(schedKey(j, r), nontrivial)
 		if o.coqEvery > 0 && i%o.coqEvery == 0 {
 			root.insert(r)
 			shipped++
@@ -126,6 +126,7 @@ func (s *sess) explore(j *Job, o exploreOpt) (n int) {
 	})
 	if err != nil {
 		fmt.Fprintln(os.Stderr, "diodeh: runner failed: "+err.Error())
+		s.b.Cleanup()
 		s.c.Finish()
 		os.Exit(3)
 	}
@@ -147,6 +148,23 @@ func (s *sess) explore(j *Job, o exploreOpt) (n int) {
 		s.ship(j, root, map[string]interface{}{"label": o.label, "schedules": shipped})
 	}
 	return nn
+}
+
+// schedKey: a 64-bit FNV-1a hash of (job, schedule) as the distinctness key (keeps memory bounded)
+func schedKey(j *Job, r *Res) string {
+	h := uint64(14695981039346656037)
+	mix := func(x uint64) {
+		for i := 0; i < 8; i++ {
+			h ^= x & 0xff
+			h *= 1099511628211
+			x >>= 8
+		}
+	}
+	mix(uint64(j.ID))
+	for _, st := range r.St {
+		mix(uint64(st[0]))
+	}
+	return fmt.Sprintf("%x", h)
 }
 
 func randCfg(r *hlib.Rng, maxP, maxW, maxSize int) (P, W, size int) {
@@ -198,10 +216,12 @@ func (s *sess) corpus() {
 	s.explore(j, exploreOpt{coqEvery: 1, label: "corpus close-races-last-poll"})
 }
 
-func (s *sess) ringDFS(cfgs [][3]int, extra int, label string) {
+func (s *sess) ringDFS(cfgs [][3]int, extra int, label string) { s.ringDFSx(cfgs, extra, label, 0, 1) }
+
+func (s *sess) ringDFSx(cfgs [][3]int, extra int, label string, maxSched, coqEvery int) {
 	for _, cfg := range cfgs {
-		j := &Job{ID: s.nextID(), Level: "diode", Size: cfg[2], Msgs: mkMsgs(cfg[0], cfg[1]), Budget: cfg[0]*cfg[1] + extra, Mode: "dfs", Post: "drain"}
-		s.explore(j, exploreOpt{coqEvery: 1, label: label})
+		j := &Job{ID: s.nextID(), Level: "diode", Size: cfg[2], Msgs: mkMsgs(cfg[0], cfg[1]), Budget: cfg[0]*cfg[1] + extra, Mode: "dfs", Post: "drain", MaxSched: maxSched}
+		s.explore(j, exploreOpt{coqEvery: coqEvery, label: label})
 	}
 }
 
@@ -308,7 +328,7 @@ func RunC10(c *hlib.Ctx) {
 		s.explore(j, exploreOpt{coqEvery: 1, label: "writer-no-consumer"})
 	}
 	if c.Thorough() {
-		s.ringDFS([][3]int{{2, 2, 1}, {3, 1, 2}}, 1, "exhaustive-thorough")
+		s.ringDFSx([][3]int{{2, 2, 1}, {3, 1, 2}, {2, 2, 2}}, 1, "exhaustive-thorough", 3000000, 150)
 		s.ringRandom(400, 500, 4, 6, 4, 25)
 		s.writerRandom(200, 200, 3, 4, 3, true, 20)
 	} else {
@@ -331,7 +351,7 @@ func RunC11(c *hlib.Ctx) {
 	s.explore(&Job{ID: s.nextID(), Level: "diode", Size: 2, Msgs: k3Msgs, Budget: 10, Mode: "list", Scheds: [][]int{k3Sched}, Post: "drain"}, exploreOpt{coqEvery: 1, label: "K3-witness"})
 	s.ringDFS([][3]int{{1, 2, 1}, {2, 1, 2}, {2, 1, 1}, {1, 3, 2}}, 2, "exhaustive")
 	if c.Thorough() {
-		s.ringDFS([][3]int{{2, 2, 1}, {3, 1, 2}}, 1, "exhaustive-thorough")
+		s.ringDFSx([][3]int{{2, 2, 1}, {3, 1, 2}, {2, 2, 2}}, 1, "exhaustive-thorough", 3000000, 150)
 		s.ringRandom(400, 500, 4, 6, 4, 25)
 		s.writerRandom(200, 200, 3, 4, 3, true, 20)
 	} else {
